@@ -1,0 +1,85 @@
+//! Verification hooks.
+//!
+//! This module only exists when the crate is compiled with
+//! `--cfg deadpool_verif`. It provides named schedule points that an
+//! external test harness can use to pause a thread between two accesses
+//! to shared pool state, and read-only snapshots of the pool internals.
+//! Without a hook installed on the current thread every point is a no-op.
+
+use std::cell::RefCell;
+
+type Hook = Box<dyn Fn(&'static str)>;
+
+thread_local! {
+    static HOOK: RefCell<Option<Hook>> = const { RefCell::new(None) };
+}
+
+/// Installs (or removes) the schedule point callback of the current thread.
+pub fn set_thread_hook(hook: Option<Hook>) {
+    HOOK.with(|h| *h.borrow_mut() = hook);
+}
+
+/// A named schedule point.
+pub fn point(label: &'static str) {
+    // `try_with` so that points reached while the thread local storage is
+    // being torn down are silently skipped.
+    let _ = HOOK.try_with(|h| {
+        if let Ok(h) = h.try_borrow() {
+            if let Some(f) = h.as_ref() {
+                f(label);
+            }
+        }
+    });
+}
+
+/// A schedule point that fires when the value is dropped (unless disarmed).
+/// Used to separate the links of the RAII unwind chain of `get()`.
+#[derive(Debug)]
+pub struct DropPoint(pub &'static str);
+
+impl DropPoint {
+    /// Forget this point without firing it.
+    pub fn disarm(self) {
+        std::mem::forget(self)
+    }
+}
+
+impl Drop for DropPoint {
+    fn drop(&mut self) {
+        point(self.0)
+    }
+}
+
+/// Read-only snapshot of the internals of a managed pool.
+#[derive(Clone, Copy, Debug, Eq, PartialEq)]
+pub struct ManagedSnapshot {
+    /// `Semaphore::available_permits()`
+    pub permits: usize,
+    /// `Semaphore::is_closed()`
+    pub closed: bool,
+    /// `users` counter
+    pub users: usize,
+    /// `(size, max_size, idle objects)` or `None` if the slots mutex is
+    /// currently held by somebody else.
+    pub slots: Option<(usize, usize, usize)>,
+}
+
+/// Read-only snapshot of the internals of an unmanaged pool.
+#[derive(Clone, Copy, Debug, Eq, PartialEq)]
+pub struct UnmanagedSnapshot {
+    /// `semaphore.available_permits()`
+    pub permits: usize,
+    /// `size_semaphore.available_permits()`
+    pub size_permits: usize,
+    /// `semaphore.is_closed()`
+    pub closed: bool,
+    /// `size_semaphore.is_closed()`
+    pub size_closed: bool,
+    /// `size` counter
+    pub size: usize,
+    /// `available` counter
+    pub available: isize,
+    /// Number of objects in the queue or `None` if the queue mutex is
+    /// currently held by somebody else.
+    pub queue_len: Option<usize>,
+}
